@@ -206,8 +206,9 @@ impl ByteLayer for PipeLayer {
   fn hangup(&mut self, tablet: bool) {
     // closing the write end is what a pipe offers for "the device went away": the read end shows a
     // hang-up, records already queued stay readable
-    if tablet { if self.p.tab_w >= 0 { let _ = close(self.p.tab_w); self.p.tab_w = -1; } }
-    else if self.p.kbd_w >= 0 { let _ = close(self.p.kbd_w); self.p.kbd_w = -1; }
+    // (an evdev node never reports end of file: once the queue is empty the read fails with ENODEV)
+    if tablet { if self.p.tab_w >= 0 { let _ = close(self.p.tab_w); self.p.tab_w = -1; crate::sysseam::eof_reads_fail(self.p.tab_r, libc::ENODEV); } }
+    else if self.p.kbd_w >= 0 { let _ = close(self.p.kbd_w); self.p.kbd_w = -1; crate::sysseam::eof_reads_fail(self.p.kbd_r, libc::ENODEV); }
   }
   fn unplug(&mut self, tablet: bool) {
     crate::sysseam::fail_reads(if tablet { self.p.tab_r } else { self.p.kbd_r }, libc::ENODEV);
